@@ -191,7 +191,7 @@ func ruleDoBarrier(c *Ctx, r *R) {
 		}
 		k++
 		okW := false
-		if call, ok := e.Ret.Results[0].(*ssa.Call); ok {
+		if call, ok := returnedValue(e.Ret, 0).(*ssa.Call); ok {
 			if cal := call.Call.StaticCallee(); cal != nil && fname(cal) == "Wait" {
 				okW = true
 			}
@@ -646,7 +646,7 @@ func ruleDoErrorContract(c *Ctx, r *R) {
 				}
 				for _, ref := range *v.Referrers() {
 					ret, ok := ref.(*ssa.Return)
-					if !ok || ret.Results[0] != ssa.Value(v) {
+					if !ok || returnedValue(ret, 0) != ssa.Value(v) {
 						continue
 					}
 					for _, gd := range guardsOf(ret.Block()) {
@@ -732,7 +732,7 @@ func ruleDoErrorContract(c *Ctx, r *R) {
 					if ec, ok := cf.x.(*ssa.Call); ok && ec.Call.IsInvoke() && ec.Call.Method.Name() == "Err" {
 						nb++
 						good := false
-						if rc, ok := ret.Results[0].(*ssa.Call); ok && rc.Call.IsInvoke() && rc.Call.Method.Name() == "Err" {
+						if rc, ok := returnedValue(ret, 0).(*ssa.Call); ok && rc.Call.IsInvoke() && rc.Call.Method.Name() == "Err" {
 							good = true
 						}
 						r.ok(good, "parallel.DoContext|cancelled-worker-reports", retPos(ret), "a worker that stops because the context is done must return ctx.Err(): returning nil turns a caller-side cancellation into a successful result with indices never processed")
@@ -751,7 +751,7 @@ func ruleDoErrorContract(c *Ctx, r *R) {
 		if !ok || len(ret.Results) == 0 {
 			continue
 		}
-		if call, ok := ret.Results[0].(*ssa.Call); ok && len(call.Call.Args) == 2 && isUserFn(call) {
+		if call, ok := returnedValue(ret, 0).(*ssa.Call); ok && len(call.Call.Args) == 2 && isUserFn(call) {
 			seq = true
 		}
 	}
@@ -780,7 +780,7 @@ func ruleDoErrorContract(c *Ctx, r *R) {
 		for _, ref := range *call.Referrers() {
 			if ex, ok := ref.(*ssa.Extract); ok && ex.Index == 1 {
 				for _, r2 := range *ex.Referrers() {
-					if ret, ok := r2.(*ssa.Return); ok && ret.Results[0] == ssa.Value(ex) {
+					if ret, ok := r2.(*ssa.Return); ok && returnedValue(ret, 0) == ssa.Value(ex) {
 						okErr = true
 					}
 					if st, ok := r2.(*ssa.Store); ok {
@@ -809,8 +809,8 @@ func ruleDoErrorContract(c *Ctx, r *R) {
 		if !ok || len(ret.Results) != 2 {
 			return
 		}
-		if call, ok := ret.Results[1].(*ssa.Call); ok {
-			if cal := staticCallee(&call.Call); cal != nil && fname(cal) == "DoContext" && isNilConst(ret.Results[0]) {
+		if call, ok := returnedValue(ret, 1).(*ssa.Call); ok {
+			if cal := staticCallee(&call.Call); cal != nil && fname(cal) == "DoContext" && isNilConst(returnedValue(ret, 0)) {
 				for _, gd := range guardsOf(b) {
 					if cf, ok := gd.asCmp(); ok && cf.x == ssa.Value(call) && cf.op == token.NEQ {
 						okRet = true
